@@ -4,7 +4,8 @@ set -e
 cd "$(dirname "$0")"
 VERIF=$(pwd)
 cd coq
-{ echo "-Q theories HS"; ls theories/*.v; ls theories/props/*.v 2>/dev/null || true; } > _CoqProject
+# only tracked files take part (work in progress next to them must not break the build)
+{ echo "-Q theories HS"; (git ls-files theories | grep '\.v$') 2>/dev/null || ls theories/*.v theories/props/*.v; } > _CoqProject
 coq_makefile -f _CoqProject -o Makefile > /dev/null
 timeout 3000 make -j16 > "$VERIF/coq/build.log" 2>&1 || { tail -50 "$VERIF/coq/build.log"; exit 1; }
 cd "$VERIF"
